@@ -83,6 +83,7 @@ def gen_case(rng: random.Random):
                         li += 1
                         break
     case["dets"] = dets
+    case["int_points"] = kind == "points" and exact and rng.random() < 0.5
     case["iou"] = kind == "seg" and rng.random() < 0.5
     # radius
     case["r"] = round(rng.uniform(0.5, 9.0), 3)
@@ -122,6 +123,8 @@ def build_inputs(case):
         pts = np.array([[d["t"], *d["p"]] for d in case["dets"]], dtype=float)
         if len(case["dets"]) == 0:
             pts = np.zeros((0, case["nd"] + 1))
+        if case["exact"] and case.get("int_points"):
+            pts = pts.astype(np.int64)  # integer coordinates in an integer array
         return pts
     seg = np.zeros((case["T"], *case["shape"]), dtype=np.dtype(case.get("dtype", "int32")))
     for d in case["dets"]:
